@@ -121,7 +121,7 @@ PROPS = {
         "rule": "mutation stream over generated valid texts (deleted / duplicated / renamed labels, swapped sections, truncation, inserted characters incl. non-ASCII, extra / missing guesses, undeclared references, sqrt nesting, odd numbers, noise) compared exactly between the real front-end and the Lean model; strictness and no-silent-drop checked on the real code",
     },
     "C13": {
-        "modules": ["Ezpz.Properties.C13", "Ezpz.Real.Deriv"],
+        "modules": ["Ezpz.Properties.C13", "Ezpz.Real.Deriv", "Ezpz.Real.DerivA", "Ezpz.Real.DerivD", "Ezpz.Real.DerivE"],
         "suites": [
             {"suite": "kernels", "quick": (200,), "thorough": (5000,)},
         ],
